@@ -21,6 +21,8 @@ func Union(c explore.Chooser) *prog.Program {
 	second := s.Pick("I2", "absent", "other", "embeds-shape", "in-sub", "unreached")
 	reach := s.Pick("reach", "field", "named-slice", "named-map", "top-level-only", "alias", "member-field", "nested-struct")
 
+	homonym := s.Pick("homonym", "none", "square-in-sub")
+
 	var a, b, sub strings.Builder
 	needSub := false
 
@@ -147,6 +149,12 @@ func Union(c explore.Chooser) *prog.Program {
 
 	// reach
 	var holder []string
+	if homonym == "square-in-sub" && !strings.Contains(sub.String(), "type Square ") {
+		// a struct of another package spelled like a member of Shape; it implements nothing
+		sub.WriteString("type Square struct {\n\tW int\n}\n\n")
+		needSub = true
+		holder = append(holder, "\tH sub.Square")
+	}
 	switch reach {
 	case "field":
 		holder = append(holder, "\tS Shape")
